@@ -798,6 +798,8 @@ class Scanner:
         if contains_rec(tr, key):
             body0 = replace_rec(tr, key, [])
             tr = replace_rec(tr, key, [("loop", body0)])
+        if fn.name == "newton_raphson" and fn.module == "pipeflow.py":
+            tr = mark_region(tr, "@newton_raphson", env_fn=fn.qual)
         # alias parameters written by the callee are reported at the callee (with the caller's keys) already
         return tr
 
@@ -1088,16 +1090,51 @@ class Scanner:
                 out += self.block(s.orelse, env)
             return out
         if isinstance(s, ast.Try):
+            # try: B  except <classes>: H...  [finally: F]
+            # an exception raised at a site inside B runs the matching handler *from the state at that site*:
+            # the handler's events are spliced in front of every raise site of B (then the handler's own raise, or
+            # the original site again for a bare `raise`).  Handlers that swallow the exception are only accepted
+            # when B has no modelled raise site (then: body, or body followed by the handler).
             e1 = self.fork(env)
             body = self.block(s.body, e1)
-            alts = [body]
+            if s.finalbody:
+                raise ScanError("%s line %d: try/finally is not supported" % (fnq, s.lineno))
+            swallow, implicit_tail = [], []
             for h in s.handlers:
                 e2 = self.fork(env)
-                alts.append(body + self.block(h.body, e2))
+                H = self.block(h.body, e2)
                 self.join(e1, e1, e2)
+                ends_in_raise = bool(H) and H[-1][0] == "abort" and self.terminates(h.body)
+                catch_all = h.type is None or (isinstance(h.type, ast.Name) and h.type.id in ("Exception",
+                                                                                              "BaseException"))
+                if not ends_in_raise:
+                    swallow.append(H)
+                    continue
+                bare = isinstance(h.body[-1], ast.Raise) and h.body[-1].exc is None
+                if not catch_all:
+                    # handler for named classes (e.g. `except KeyError: raise UserWarning`): explicit sites of
+                    # those classes are routed through it; an implicit exception of that class is modelled at the
+                    # end of the body
+                    ts = h.type.elts if isinstance(h.type, ast.Tuple) else [h.type]
+                    names = set(t.id if isinstance(t, ast.Name) else t.attr if isinstance(t, ast.Attribute) else "?"
+                                for t in ts)
+                    if "?" in names:
+                        raise ScanError("%s line %d: unsupported except clause" % (fnq, s.lineno))
+                    body = splice_handler(body, H[:-1] if bare else H, keep_site=bare,
+                                          match=lambda site: site.split("!")[-1].split("@")[0] in names)
+                    implicit_tail.append(H if not bare else H[:-1] + [("abort", fnq + "!" + sorted(names)[0])])
+                    continue
+                body = splice_handler(body, H[:-1] if bare else H, keep_site=bare)
             env.consts, env.aliases = e1.consts, e1.aliases
-            out = [("alt", alts)] if any(alts) else []
-            out += self.block(s.orelse, env) + self.block(s.finalbody, env)
+            if swallow:
+                if raise_sites(body):
+                    raise ScanError("%s line %d: exception-swallowing handler around code with raise sites" % (fnq, s.lineno))
+                out = [("alt", [body] + [body + H for H in swallow])]
+            elif implicit_tail:
+                out = [("alt", [body] + [body + H for H in implicit_tail])]
+            else:
+                out = list(body)
+            out += self.block(s.orelse, env)
             return out
         if isinstance(s, ast.With):
             out = []
@@ -1123,6 +1160,74 @@ class Scanner:
                 raise ScanError("%s line %d: nested definition touching the net" % (fnq, s.lineno))
             return []
         raise ScanError("%s line %d: unsupported statement %s" % (fnq, s.lineno, type(s).__name__))
+
+
+CACHE_KEYS = ("_internal_data",)
+SUBS = {}          # id -> trace: handler bodies shared by reference (emitted once as a Coq definition)
+
+
+def sub_id(H):
+    key = repr(H)
+    for k, v in SUBS.items():
+        if v[0] == key:
+            return k
+    k = len(SUBS)
+    SUBS[k] = (key, H)
+    return k
+
+
+def sub_trace(k):
+    return SUBS[k][1]
+
+
+def splice_handler(tr, H, keep_site, match=None):
+    """put the handler's events in front of every (matching) raise site of tr (deep)"""
+    out = []
+    for e in tr:
+        if e[0] == "abort" and match is not None and not match(e[1]):
+            out.append(e)
+        elif e[0] == "abort":
+            if size(H) > 4:
+                out.append(("sub", sub_id(simplify(list(H)))))
+            else:
+                out += list(H)
+            if keep_site:
+                out.append(e)
+        elif e[0] == "alt":
+            out.append(("alt", [splice_handler(a, H, keep_site, match) for a in e[1]]))
+        elif e[0] == "loop":
+            out.append(("loop", splice_handler(e[1], H, keep_site, match)))
+        elif e[0] == "comp":
+            out.append(("comp", [(c, splice_handler(a, H, keep_site, match)) for c, a in e[1]]))
+        elif e[0] == "phase":
+            out.append(("phase", e[1], splice_handler(e[2], H, keep_site, match)))
+        else:
+            out.append(e)
+    return out
+
+
+def mark_region(tr, tag, env_fn, top=True):
+    """everything raised while the Newton loop is on the stack: raise sites get the tag; an implicit exception
+    (any statement may raise) is modelled at the points where what is held in a cache key changes - at the start of
+    the region and after every write / deletion of a cache key (w.l.o.g. for what an interrupted call leaves there)"""
+    imp = ("alt", [[("abort", "implicit" + tag)], []])
+    out = [imp] if top else []
+    for e in tr:
+        if e[0] == "abort":
+            out.append(("abort", e[1] if e[1].endswith(tag) else e[1] + tag))
+        elif e[0] == "alt":
+            out.append(("alt", [mark_region(a, tag, env_fn, False) for a in e[1]]))
+        elif e[0] == "loop":
+            out.append(("loop", mark_region(e[1], tag, env_fn, False)))
+        elif e[0] == "comp":
+            out.append(("comp", [(c, mark_region(a, tag, env_fn, False)) for c, a in e[1]]))
+        elif e[0] == "phase":
+            out.append(("phase", e[1], mark_region(e[2], tag, env_fn, False)))
+        else:
+            out.append(e)
+            if (e[0] in ("W", "M", "D", "AW") and e[1] in CACHE_KEYS) or (e[0] == "C" and e[1] in CACHE_KEYS):
+                out.append(imp)
+    return out
 
 
 def contains_rec(tr, key):
@@ -1212,6 +1317,25 @@ def size(tr):
     return n
 
 
+def expand(tr):
+    """replace sub references by their traces (for the Python-side mirrors of the Coq analyses)"""
+    out = []
+    for e in tr:
+        if e[0] == "sub":
+            out += expand(sub_trace(e[1]))
+        elif e[0] == "alt":
+            out.append(("alt", [expand(a) for a in e[1]]))
+        elif e[0] == "loop":
+            out.append(("loop", expand(e[1])))
+        elif e[0] == "comp":
+            out.append(("comp", [(c, expand(a)) for c, a in e[1]]))
+        elif e[0] == "phase":
+            out.append(("phase", e[1], expand(e[2])))
+        else:
+            out.append(e)
+    return out
+
+
 # --------------------------------------------------------------------------------------------- python-side scan
 def py_scan(tr, defined, allowed, problems, dp=None, cur=None):
     """the def-use scan of C12.Model.scan, in Python, for diagnostics (which function reads which stale key).
@@ -1249,9 +1373,12 @@ def py_scan(tr, defined, allowed, problems, dp=None, cur=None):
             if o is None:
                 return None
             d, dp = o
+        elif k == "sub":
+            o = py_scan(sub_trace(e[1]), d, allowed, problems, dp, cur)
+            if o is None:
+                return None
+            d, dp = o
         elif k == "comp":
-            if cur is not None:
-                problems.append(("nested-component-loop", "", ""))
             for c, a in e[1]:
                 o = py_scan(a, d, allowed, problems, dp, c)
                 if o is not None:
@@ -1301,6 +1428,8 @@ def py_eff(tr, key, des):
                 en = _then(en, {"U"} | x)
         elif k == "phase":
             en, ea = py_eff(e[2], key, des)
+        elif k == "sub":
+            en, ea = py_eff(sub_trace(e[1]), key, des)
         ab |= _then(n, ea)
         n = _then(n, en)
     return n, ab
@@ -1311,6 +1440,8 @@ def raise_sites(tr, acc=None):
     for e in tr:
         if e[0] == "abort":
             acc.add(e[1])
+        elif e[0] == "sub":
+            raise_sites(sub_trace(e[1]), acc)
         elif e[0] == "alt":
             for a in e[1]:
                 raise_sites(a, acc)
@@ -1328,6 +1459,12 @@ STAGE_FAILURE_SITES = ["hydraulics!PipeflowNotConverged", "bidirectional!Pipeflo
                        "heat_transfer!PipeflowNotConverged"]
 
 
+def designated(site):
+    """the exits at which a call without reuse must not hold a cache of its own: the stage drivers' failure
+    raises and everything raised (explicitly or implicitly) while the Newton loop runs"""
+    return site in STAGE_FAILURE_SITES or site.endswith("@newton_raphson")
+
+
 def leaky_sites(tr, key="_internal_data"):
     """raise sites at which this call may still hold a value it wrote itself into `key`"""
     return sorted(s for s in raise_sites(tr) if "W" in py_eff(tr, key, lambda x, s=s: x == s)[1])
@@ -1335,6 +1472,7 @@ def leaky_sites(tr, key="_internal_data"):
 
 # --------------------------------------------------------------------------------------------- driver
 def scan_all(src=None):
+    SUBS.clear()
     sc = Scanner(src)
     pf = sc.S.funcs.get("pipeflow")
     if pf is None:
@@ -1348,6 +1486,15 @@ def scan_all(src=None):
             sc.stack = [("pipeflow", None)]
             tr = sc.block(pf.node.body, env)
             progs[(mode, upd, reuse)] = simplify(tr, top=True)
+    # transient thermal calculation (pit carried from step to step by design): thermal modes x first / later step
+    tprogs = {}
+    for mode in ("sequential", "bidirectional"):
+        for step in (0, 1):
+            sc.config = {"mode": mode, "reuse_internal_data": False, "transient": True,
+                         "only_update_hydraulic_matrix": False, "simulation_time_step": step}
+            sc.stack = [("pipeflow", None)]
+            tprogs[(mode, step)] = simplify(sc.block(pf.node.body, Env(pf, None, netname="net")), top=True)
+    sc.transient_progs = tprogs
     # mode "all" is rewritten to sequential by _mode_check (C14); anything else raises in pipeflow
     sc.config = {"mode": "<other>", "reuse_internal_data": False, "transient": False,
                  "only_update_hydraulic_matrix": False}
@@ -1497,6 +1644,8 @@ def coq_prog(tr, fnidx, clsidx, indent=2):
             return s[1:-1] if s.startswith("(Choice") else "Seq Skip " + s
         if k == "loop":
             return "Loop (%s)" % seq(e[1])
+        if k == "sub":
+            return "hsub_%d" % e[1]
         if k == "comp":
             items = ["IfComp %d (%s)" % (clsidx[c], seq(a)) for c, a in e[1] if a]
             s = items[-1]
@@ -1546,7 +1695,7 @@ def generate(src=None):
             elif e[0] == "comp":
                 for _, a in e[1]:
                     walk(a)
-    for t in list(progs.values()) + [tr_other]:
+    for t in list(progs.values()) + [tr_other] + list(sc.transient_progs.values()):
         walk(t)
     names = [None] * len(fnidx)
     for f, i in fnidx.items():
@@ -1572,6 +1721,16 @@ def generate(src=None):
              clist(["(%s, %s)" % (cstr(a), cstr(b)) for a, b in hyd_flag_literals(sc)]) + ".\n")
     L.append("Definition getter_mutations : list (string * string) := " +
              clist(["(%s, %s)" % (cstr(a), cstr(b)) for a, b in getter_mutations(src)]) + ".\n")
+    def walk_subs():
+        for k in sorted(SUBS):
+            walk(sub_trace(k))
+    walk_subs()
+    names = [None] * len(fnidx)
+    for f, i in fnidx.items():
+        names[i] = f
+    L[6] = "Definition fn_names : list string := " + clist([cstr(n) for n in names]) + "."
+    for k in sorted(SUBS):
+        L.append("Definition hsub_%d : prog :=\n  %s.\n" % (k, coq_prog(sub_trace(k), fnidx, clsidx)))
     bodies = {}
 
     def body_name(text):
@@ -1602,6 +1761,12 @@ def generate(src=None):
         L.append("Definition prog_%s : prog := seq_of phases_%s.\n" % (n, n))
     pl = phase_list(tr_other)
     L.append("Definition prog_other_mode : prog := seq_of %s.\n" % clist(["(%s, %s)" % (cstr(a), b) for a, b in pl]))
+    L.append("(* transient=True: (mode, simulation_time_step 0 / later, program) *)")
+    tl = []
+    for (mode, step), tr in sc.transient_progs.items():
+        pl = phase_list(tr)
+        tl.append("  (%s, %d, seq_of %s)" % (cstr(mode), step, clist(["(%s, %s)" % (cstr(a), b) for a, b in pl])))
+    L.append("Definition transient_progs : list (string * nat * prog) := [\n" + ";\n".join(tl) + "\n].\n")
     L.append("(* (mode, only_update_hydraulic_matrix, reuse_internal_data, program) *)")
     L.append("Definition all_progs : list (string * bool * bool * prog) := [")
     L.append(";\n".join("  (%s, %s, %s, prog_%s)" % (cstr(m), "true" if u else "false", "true" if r else "false",
